@@ -6,7 +6,9 @@ package main
 import (
 	"encoding/json"
 	"fmt"
+	"os"
 	"sort"
+	"time"
 
 	"verifharness/cmd/c06/drv"
 	"verifharness/lib"
@@ -235,7 +237,18 @@ func runOnce(c drv.Case) (lib.Result, bool) {
 func runCase(c drv.Case) lib.Result {
 	c.Sanitize()
 	for i := 0; ; i++ {
-		res, redo := runOnce(c)
+		done := make(chan struct{})
+		var res lib.Result
+		var redo bool
+		go func() { res, redo = runOnce(c); close(done) }()
+		select {
+		case <-done:
+		case <-time.After(drv.CaseTimeout):
+			// a request that is never answered (or a deadlock) must not hang the check: die, the
+			// parent process then isolates this case and reports it as a crash
+			fmt.Fprintf(os.Stderr, "case %d: no answer within %v (request never answered / deadlock)\n", c.ID, drv.CaseTimeout)
+			os.Exit(3)
+		}
 		if !redo || i >= 2 {
 			return res
 		}
